@@ -75,6 +75,15 @@ def run(ctx):
     # readers are called only by the assembler / error parser
     for rd in (lin, R.block_reader):
         allowed = {asm.name} | ({R.error_parser.name} if R.error_parser else set()) | {lin.name}
+        # a private helper called only from there is part of the same reading step
+        grew_ = True
+        while grew_:
+            grew_ = False
+            for c_ in G.callers(rd.name) - allowed:
+                cc_ = G.callers(c_) - {c_}
+                if c_.startswith("_") and cc_ and cc_ <= allowed:
+                    allowed.add(c_)
+                    grew_ = True
         extra = G.callers(rd.name) - allowed
         if extra:
             for c in sorted(extra):
